@@ -642,6 +642,18 @@ def try_discharge(P, inst):
                         return "divisor tested !is_zero() on every path"
                     if ct["args"] and root_prefix(body, ct["args"][0], d):
                         return "value containing the divisor tested !%s() on every path" % cn.rsplit("::", 1)[-1]
+        # the divisor is one of several values (`let (from, to) = if .. {(a, b)} else {(b, a)}`): each of them is tested
+        droots = set((r.kind, r.name, r.fields) for r in prov(body, d))
+        tested = set()
+        for a in get_atoms():
+            if a.kind == "call" and len(a.label) == 1 and a.label[0] is False and a.subject[0] in ZERO_PREDS:
+                ct = body.term(a.subject[2])
+                if ct["args"]:
+                    rs = set((r.kind, r.name, r.fields) for r in prov(body, ct["args"][0]))
+                    if len(rs) == 1:
+                        tested |= rs
+        if droots and droots <= tested:
+            return "every value the divisor can be is tested !is_zero() on every path"
         return None
 
     if inst.kind == "unwrap":
